@@ -164,7 +164,7 @@ func c11(w *core.World, r *core.Report) {
 	ruleSortShared(w, r, "SORT-SHARED", "pkg/tree", "pkg/utils", "pkg/datastore", "pkg/datastore/clients/schema", "pkg/datastore/target", "pkg/datastore/target/netconf", "pkg/tree/importer/xml", "pkg/tree/importer/json", "pkg/tree/importer/proto")
 
 	// ---- KEY-ORDER
-	r.Rule("KEY-ORDER", 9, "key-order table: every function that maps a position (tree level, slice index, output order) to a key name or value sorts the key names first (the tree and utils.ToStrings order key levels by key NAME, not by the key statement): a sort call exists, executes before the positional use, and the sorted slice is the one that is ranged / indexed afterwards.")
+	r.Rule("KEY-ORDER", 18, "key-order table: every function that maps a position (tree level, slice index, output order) to a key name or value sorts the key names first (the tree and utils.ToStrings order key levels by key NAME, not by the key statement): a sort call exists, executes before the positional use, and the sorted slice is the one that is ranged / indexed afterwards; and the slice that is sorted is not ranged, indexed or handed to a repository function on a path that reaches the sort only afterwards (a fast path in front of the sort would walk the tree levels in key-statement order).")
 	for _, t := range keyOrderTable {
 		f := w.Func(t.Pkg, t.Recv, t.Name)
 		if f == nil {
@@ -216,6 +216,43 @@ func c11(w *core.World, r *core.Report) {
 			}
 		}
 		r.Check(ok, "KEY-ORDER", core.Site(f, "sorts key names before positional use"), w.Pos(f.Pos()), t.Why+": "+detail)
+		// ... and nothing walks the same slice positionally BEFORE it is sorted (a fast path in front of the sort
+		// sees the key names in key-statement order while the tree levels are in name order)
+		early := ""
+		for _, s := range core.CallsTo(f, sortCalls...) {
+			if len(s.Common().Args) == 0 || strings.HasPrefix(core.CalleeKey(s), "slices.Sorted") {
+				continue
+			}
+			sorted := s.Common().Args[0]
+			for _, b := range core.Blocks(f) {
+				for _, in := range b.Instrs {
+					var used ssa.Value
+					switch x := in.(type) {
+					case *ssa.IndexAddr:
+						used = x.X
+					case *ssa.Index:
+						used = x.X
+					case *ssa.Range:
+						used = x.X
+					case ssa.CallInstruction:
+						if g := x.Common().StaticCallee(); x != s && g != nil && g.Blocks != nil && strings.HasPrefix(core.PkgPath(g), core.Module) {
+							for _, a := range x.Common().Args {
+								if core.SameObject(a, sorted) {
+									used = a
+								}
+							}
+						}
+					}
+					if used == nil || !core.SameObject(used, sorted) || in.Parent() != s.Parent() {
+						continue
+					}
+					if core.CanFollow(in, s) && !core.CanFollow(s, in) {
+						early = w.InstrPos(in)
+					}
+				}
+			}
+		}
+		r.Check(early == "", "KEY-ORDER", core.Site(f, "no positional use of the key names ahead of the sort"), w.Pos(f.Pos()), t.Why+": the slice that is sorted later is ranged / indexed / handed to a repository function at "+early+" while it is still in key-statement order")
 	}
 
 	// ---- KEY-VALUE-VERBATIM
